@@ -634,10 +634,25 @@ func isNullValue(fd protoreflect.FieldDescriptor) bool {
 
 type params []param
 
+// localField returns the field of cur that corresponds to fd. A method can
+// have several handlers (local services, proxied connections) whose
+// descriptors were loaded separately; routes are resolved against one of
+// them but the message belongs to the handler that was picked.
+func localField(cur protoreflect.Message, fd protoreflect.FieldDescriptor) protoreflect.FieldDescriptor {
+	if fd.ContainingMessage() == cur.Descriptor() {
+		return fd
+	}
+	if lfd := cur.Descriptor().Fields().ByNumber(fd.Number()); lfd != nil {
+		return lfd
+	}
+	return fd
+}
+
 func (ps params) set(m proto.Message) error {
 	for _, p := range ps {
 		cur := m.ProtoReflect()
 		for i, fd := range p.fds {
+			fd = localField(cur, fd)
 			if len(p.fds)-1 == i {
 				switch {
 				case fd.IsList():
